@@ -24,7 +24,9 @@ type c07Scn struct {
 var setChecksumRe = regexp.MustCompile(`(?i)^\s*SET\s+@master_binlog_checksum\s*=`)
 
 func c07Name(r *core.Rng) string {
-	switch r.Intn(7) {
+	switch r.Intn(8) {
+	case 7:
+		return "" // the empty name is legal: the master then starts with its first binlog
 	case 0:
 		return "a"
 	case 1:
@@ -215,7 +217,7 @@ func c07Run(c *core.Ctx, scn c07Scn) {
 	cur := scn.Attempts[0]
 	nt := len(scn.Attempts) >= 2 || scn.ServerID >= 1<<31
 	for ai, p := range scn.Attempts {
-		if p.File != "" {
+		if p.Off != 0 {
 			s.S.SetBinlogPosition(gobinlog.Position{Filename: p.File, Offset: p.Off})
 			cur = p
 			c.Cell("attempt:position-set")
@@ -225,7 +227,12 @@ func c07Run(c *core.Ctx, scn c07Scn) {
 		if cur.Off != 4 {
 			nt = true
 		}
-		res := s.Attempt(run.NoFaults(), nil, maxWait)
+		hs := run.NoFaults()
+		if (scn.Index+ai)%3 == 0 {
+			hs.WithDeadline = true // a context that also has a (far) deadline
+			c.Cell("attempt:context-with-deadline")
+		}
+		res := s.Attempt(hs, nil, maxWait)
 		wit := func() map[string]interface{} { return witnessOf(scn, nil, s, map[string]interface{}{"attempt": ai}) }
 		if res.Verdict != run.Returned {
 			c.Cell("stream-not-returned(reported under C05)")
